@@ -50,10 +50,11 @@ def scratch():
 class Proxy(object):
     """file object that reports write / flush / close to the recorder before doing them"""
 
-    def __init__(self, f, rec, path):
+    def __init__(self, f, rec, path, mode=""):
         self.__dict__["_f"] = f
         self.__dict__["_rec"] = rec
         self.__dict__["_path"] = path
+        self.__dict__["_mode"] = mode
 
     def write(self, text):
         self._rec.event("write", text, self._path)
@@ -65,11 +66,15 @@ class Proxy(object):
 
     def close(self):
         if not self._f.closed:
-            self._rec.event("close", None, self._path)
+            self._rec.event("close", self._mode, self._path)
         return self._f.close()
 
     def __getattr__(self, name):
         return getattr(self._f, name)
+
+
+class Killed(BaseException):
+    """the process is killed inside a control (emulated: the buffers are discarded, the call stack unwinds)"""
 
 
 class LogAcct(object):
@@ -83,6 +88,7 @@ class LogAcct(object):
         self.rot_start = 0
         self.bounds = []              # len(stream) at each rotation of the main file
         self.renames = []             # (k, size of source or None)
+        self.wrote_total = 0          # records for which the write call was made, ever
 
     def settle(self):
         if self.pending_flush is not None:
@@ -109,6 +115,10 @@ class Recorder(object):
         self.muted = False
         self.snaps = []               # per event: tuple over the logs of (state, stream, nf, rotStart, bounds)
         self.files = []               # proxies handed out in this life
+        self.die_at = None            # die inside the current control after this many file-system steps
+        self.mc = 0                   # file-system steps of the current control so far
+        self.die_hook = None
+        self.died_at = []             # event numbers at which a death inside a control was emulated
 
     def which(self, path):
         for i, a in enumerate(self.logs):
@@ -139,6 +149,19 @@ class Recorder(object):
             a.settle()
         if self.kill_at is not None and self.n == self.kill_at:
             os._exit(0)
+        # the steps the model counts: open / write / flush(+fsync) / close / rename; the close of a trial open
+        # belongs to the open
+        step = kind in ("open", "write", "flush", "rename") or (kind == "close" and not (arg or "").startswith("r"))
+        if step and self.die_at is not None:
+            if self.mc == self.die_at:
+                self.died_at.append((self.n, tuple(self.read_paths(a.paths) for a in self.logs)))
+                self.die_at = None
+                if self.snapshots:
+                    self.snap()           # what the process leaves when it dies here
+                self.n += 1
+                self.die_hook()
+                raise Killed()
+            self.mc += 1
         if self.snapshots:
             self.snap()
         self.n += 1
@@ -151,6 +174,7 @@ class Recorder(object):
                 parts = line.split("\t")
                 if len(parts) == 2 and parts[1].startswith("r") and "_" in parts[1] and parts[1][1:parts[1].index("_")].isdigit():
                     a.stream.append(int(parts[1][1:parts[1].index("_")]))
+                    a.wrote_total += 1
         elif kind in ("flush", "close"):
             a.pending_flush = len(a.stream)
         elif kind == "rename":
@@ -198,7 +222,7 @@ def canon_file(data):
         if len(parts) == 2 and parts[1].startswith("r") and "_" in parts[1]:
             n = parts[1][1:parts[1].index("_")]
             if n.isdigit():
-                toks.append("r%s:%d" % (n, len(l.encode()) + 1))
+                toks.append("r%d:%d" % (int(n), len(l.encode()) + 1))
                 i += 1
                 continue
         toks.append("?%r" % l)
@@ -225,9 +249,11 @@ def proto_ok(ops):
     for o in ops:
         if o == "ctl run" and st == "stopped":
             return False
+        if o.startswith("die run") and st == "stopped":
+            return False
         if o.startswith("ctl "):
             st = {"start": "started", "run": "running", "stop": "stopped"}[o[4:]]
-        elif o == "reboot":
+        elif o == "reboot" or o.startswith("die "):
             st = "stopped"
     return True
 
@@ -252,7 +278,7 @@ class Plan(object):
         self.last_rec_stamp = None
 
     def value(self, k=0):
-        return "r%d_%s" % (self.n + k, "x" * self.pad)
+        return "r%04d_%s" % (self.n + k, "x" * self.pad)
 
     def line(self, val):
         return "%s\t%s\n" % (repr(self.stamp / 8.0), val)
@@ -315,14 +341,17 @@ class CHECK(core.Check):
     PROPERTY = "C23"
     LEAN_MODULES = ["IofloModel.Props.C23"]
     ENGINE = "rotate"
-    N_QUICK = 90
+    N_QUICK = 65
     N_THOROUGH = 1000
     N_SEARCH = 200
     RULE = ("configurations keep 0-3 x cyclePeriod {0,.25,.5,1,2,3 s} x fileSize {0,40..300 bytes} x flushPeriod "
             "{0,1,1.5,2,4 s} x reuse x loggers with 1-3 logs of rules {always, once, update, change, deck, streak, never} (mixed); record streams of "
             "2-16 ticks with varying record sizes and batch sizes (deck/streak: 0-3 queued items per tick), tick lengths "
             "1/8-1.5 s, restarts (STOP/START) and 1-3 process lives (fresh Logger/Log objects on the same prefix; a life "
-            "ends after STOP or by a kill that discards the buffers); a small full grid of configurations over fixed "
+            "ends after STOP, by a kill between controls, or by a kill INSIDE a control after g of its file-system steps - "
+            "op `die <ctl> <g>`: between the renames of a rotation, between create and header, between header write and "
+            "flush, between the trial opens of a reopen, ... - followed by a restart on the files left); every g for "
+            "START / RUN-with-rotation / STOP on fixed streams; a small full grid of configurations over fixed "
             "streams; every primitive of every run is a crash point (read-back), and sampled crash points (all points for "
             "selected cases) are produced by killing a forked child; non-trivial = at least two records written; distinct "
             "by case content")
@@ -330,7 +359,9 @@ class CHECK(core.Check):
                "os.fsync and os.rename are intercepted, the directory is read back from disk before each one (what a kill "
                "at that point leaves) and the sequence of distinct crash states is compared with the Lean driver; a "
                "process life that ends by a kill is emulated by redirecting the open file descriptors to /dev/null (the "
-               "buffers never reach the files); sampled crash points are checked against a forked child really killed "
+               "buffers never reach the files; for a death inside a control this is done at the intercepted call and the call "
+               "stack is unwound with a BaseException, the runner's cleanup writing to /dev/null); every death inside a "
+               "control (quick: a sample) and sampled crash points are checked against a forked child really killed "
                "with os._exit",
                "a killed process loses its user-space buffers and nothing else: durability below fsync (power loss, page "
                "cache) is the operating system's contract and is not exercised",
@@ -341,8 +372,13 @@ class CHECK(core.Check):
     PARTIAL = ["all seven theorems are full, over any number of process lives and for every log rule, for the code with "
                "fix patch fixes/D53-log-reopen-empty-file-is-new.patch (Cfg.emptyIsNew = true); "
                "C23_D53_orig_headerless_after_empty_kill documents the code before the patch",
-               "not covered: process lives that end in the middle of a control (crash points inside a control are covered "
-               "for the files they leave, not for a restart from them), a different keep or directory layout in a later "
+               "process lives that end in the middle of a control are covered (Op.die / MOp.die: cut_spec shows the state a "
+               "new process starts from is as good as one reached between controls, so every theorem holds for the "
+               "lives that follow); observation: a rotation cut short by a kill leaves a hole among the copies which the "
+               "next life fills with an empty file, so one retained generation is lost early (nothing flushed and still "
+               "within the contiguous retained suffix is lost; the oracle accounts for it); the global order of the "
+               "primitives of a multi-log control (loop by loop, log by log) is in the driver, the theorems hold for "
+               "every vector of per-log cut points; not covered: a different keep or directory layout in a later "
                "life, failing renames / opens (OSError branches are in the model but proved unreachable), binary logs; "
                "loggers with several logs: C23_logs_lockstep shows every log of a multi-log logger is where the single-log "
                "logger would be, so all theorems hold per log and per-log crash point (C23_multi_*); one log raising an "
@@ -404,7 +440,7 @@ class CHECK(core.Check):
                 for pl in pls:
                     pl.new_life()
                 out.append("reboot")
-            elif w[0] == "ctl":
+            elif w[0] in ("ctl", "die"):
                 writes = (w[1] in ("start", "run")) or (w[1] == "stop" and pls[0].status != "stopped")
                 if writes:
                     for i, pl in enumerate(pls):
@@ -415,6 +451,9 @@ class CHECK(core.Check):
                 for pl in pls:
                     pl.status = {"start": "started", "run": "running", "stop": "stopped"}[w[1]]
                 out.append(o)
+                if w[0] == "die":         # killed inside the control: a new process (record numbers do not matter here)
+                    for pl in pls:
+                        pl.new_life()
         return out
 
     def model_post(self, case, replies):
@@ -444,7 +483,7 @@ class CHECK(core.Check):
                     a.paths = [os.path.join(d, b + ".txt")] + [os.path.join(d, "%s%02d.txt" % (b, k + 1))
                                                               for k in range(keepbox[0])]
             rec.event("open", mode, path)
-            p = Proxy(real_ocfn(path, mode, binary), rec, path)
+            p = Proxy(real_ocfn(path, mode, binary), rec, path, mode)
             rec.files.append(p)
             return p
 
@@ -484,6 +523,9 @@ class CHECK(core.Check):
         def new_life():
             for cls in (housing.House, storing.Store, logging.Logger, logging.Log, tasking.Tasker):
                 cls.Clear()
+            if not c["reuse"]:
+                import time
+                time.sleep(0.003)       # the new directory is named by the clock in ms: never the previous life's name
             house = housing.House(name="H")
             store = house.store
             logger = logging.Logger(name="L", store=store, prefix=root, reuse=bool(c["reuse"]), keep=c["keep"],
@@ -522,6 +564,26 @@ class CHECK(core.Check):
                 pass
             rec.muted = False
 
+        def die_hook():
+            """the kill, at an intercepted call inside a control: buffers are lost, nothing more reaches the files"""
+            rec.life_ends()
+            for a, mark in zip(rec.logs, ctl_marks):
+                # a rename chain cut short leaves a hole among the copies; the next life's trial open fills it with
+                # an empty file: an empty stretch between the copy that was moved up and the files below the hole
+                done = [k for k, size in a.renames[mark:] if size is not None]
+                if done and done[-1] >= 1 and c["reuse"]:
+                    idx = len(a.bounds) - done[-1]
+                    a.bounds.insert(max(idx, 0), a.bounds[idx] if idx >= 0 else 0)
+            for p in rec.files:
+                f = p._f
+                if not f.closed:
+                    dn = os.open(os.devnull, os.O_WRONLY)
+                    os.dup2(dn, f.fileno())
+                    os.close(dn)
+            rec.muted = True
+
+        ctl_marks = []
+        rec.die_hook = die_hook
         logging.ocfn, os.rename, os.fsync = ocfn, rename, fsync
         logging.Log.flush, logging.Logger.flush = log_flush, logger_flush
         try:
@@ -554,6 +616,30 @@ class CHECK(core.Check):
                 elif w[0] == "reboot":
                     end_life()
                     for pl in pls:
+                        pl.new_life()
+                    new_life()
+                elif w[0] == "die":
+                    writes = (w[1] in ("start", "run")) or (w[1] == "stop" and pls[0].status != "stopped")
+                    if writes:
+                        for i, pl in enumerate(pls):
+                            v = pl.before_run()
+                            if v is not None:
+                                life["shares"][i].change(value=v)
+                    rec.die_at, rec.mc = int(w[2]), 0
+                    ctl_marks[:] = [len(a.renames) for a in rec.logs]
+                    try:
+                        life["logger"].runner.send({"start": globaling.START, "run": globaling.RUN,
+                                                    "stop": globaling.STOP}[w[1]])
+                        rec.die_at = None
+                        end_life()            # the control got through: the kill comes right after it
+                    except Killed:
+                        try:
+                            life["logger"].runner.close()
+                        except Exception:
+                            pass
+                        rec.muted = False
+                    for i, pl in enumerate(pls):
+                        pl.n = rec.logs[i].wrote_total      # numbering goes on after the records actually written
                         pl.new_life()
                     new_life()
                 elif w[0] == "ctl":
@@ -639,13 +725,19 @@ class CHECK(core.Check):
         kills = case.get("kills", [])
         bad = None
         total = len(rec.snaps)
-        pts = range(total) if kills == "all" else [k for k in kills if k < total]
+        pts = list(range(total)) if kills == "all" else [k for k in kills if k < total]
+        # every death inside a control is also produced for real: a forked child exits at that intercepted call
+        died = dict(rec.died_at)
+        if case.get("diekill", True):
+            pts += [k for k in died if k not in pts]
         for k in pts:
-            want = " | ".join(per_log[i][k] for i in range(n))
+            want = " | ".join(((died[k][i] or nothing) if k in died else per_log[i][k]) for i in range(n))
             got = self.kill_run(case, k)
             ok = (want in got) if isinstance(got, list) else False
             if isinstance(got, list) and not got and want == " | ".join([nothing] * n):
                 ok = True
+            if isinstance(got, list) and want == " | ".join([nothing] * n) and not case["cfg"]["reuse"]:
+                ok = True          # a new life without reuse has not made its own directory yet: nothing of its own
             if not ok:
                 bad = "kills: mismatch at primitive %d: killed child left %s, read-back was %s" % (k, got, want)
                 break
@@ -753,12 +845,22 @@ class CHECK(core.Check):
                 if rng.random() < 0.6:
                     ops.append("put %d %d" % (i, rng.choice([1, 1, 1, 2, 3])))
 
+        def ctl(c):
+            """the control, or (now and then) the process dying inside it after some of its file-system steps"""
+            if rng.random() < 0.07:
+                ops.append("die %s %d" % (c, rng.randrange(6 + 12 * nlogs)))
+                return True
+            ops.append("ctl " + c)
+            return False
+
         for life in range(lives):
             if rng.random() < 0.3:
                 ops.append("pad %d" % rng.randrange(30))
             puts()
-            ops.append("ctl start")
+            if ctl("start"):
+                continue
             started = True
+            died = False
             for t in range(rng.choice([1, 2, 4, 6, 8, 12])):
                 if rng.random() < 0.85:
                     ops.append("adv %d" % rng.choice([1, 2, 4, 4, 8, 8, 12]))
@@ -768,16 +870,21 @@ class CHECK(core.Check):
                 r = rng.random()
                 if started:
                     if r < 0.85:
-                        ops.append("ctl run")
+                        died = ctl("run")
                     elif r < 0.93:
-                        ops.append("ctl stop")
+                        died = ctl("stop")
                         started = False
                 else:
                     if r < 0.7:
-                        ops.append("ctl start")
+                        died = ctl("start")
                         started = True
+                if died:
+                    break
+            if died:
+                continue
             if started and rng.random() < (0.5 if life < lives - 1 else 0.4):
-                ops.append("ctl stop")
+                if ctl("stop"):
+                    continue
                 started = False
             if life < lives - 1:
                 ops.append("reboot")
@@ -822,6 +929,29 @@ class CHECK(core.Check):
                        "ops": ops,
                        "kills": "all" if (sel and tier == "thorough" and rules in (["always"], ["always", "deck"]))
                        else ([7, 12, 25, 40] if (sel and rules == ["always", "deck"]) else [])}
+
+        # the process dies inside a control after g of its file-system steps, for every g: inside a run that flushes
+        # and rotates (between the renames, between create and header, between header and reopen), inside the START
+        # of a second life (reopen, trial opens, header), inside a STOP (flush, rotation, close); then a new life
+        for rules in ([["always", "deck"]] if tier == "quick" else
+                      [["always"], ["always", "deck"], ["streak", "always", "update"]]):
+            n = len(rules)
+            p = puts(n)
+            dk = (lambda g: g % 8 == 3) if tier == "quick" else (lambda g: g % 2 == 0)   # also really kill a child there
+            for keep, fsize, reuse in ([(2, 0, True)] if tier == "quick" else
+                                       [(2, 0, True), (1, 60, True), (0, 0, True), (2, 0, False)]):
+                cfgd = {"keep": keep, "cycle": 8, "fsize": fsize, "flush": 8, "reuse": reuse, "rules": rules}
+                tail = p + ["ctl start", "adv 8"] + p + ["ctl run", "ctl stop"]
+                for g in range(0, 4 + 13 * n):
+                    yield {"cfg": cfgd, "kills": [], "diekill": dk(g),
+                           "ops": p + ["ctl start", "adv 8"] + p + ["die run %d" % g] + tail}
+                    yield {"cfg": cfgd, "kills": [], "diekill": dk(g),
+                           "ops": p + ["ctl start", "adv 8"] + p + ["ctl run", "ctl stop", "reboot"] + p +
+                                  ["die start %d" % g] + tail}
+                    yield {"cfg": cfgd, "kills": [], "diekill": dk(g),
+                           "ops": p + ["ctl start", "adv 8"] + p + ["ctl run", "adv 8"] + p + ["die stop %d" % g] + tail}
+                for g in range(0, 3 + 4 * n):      # a first START that dies: no file, an empty file, a header in the buffer
+                    yield {"cfg": cfgd, "kills": [], "diekill": dk(g), "ops": p + ["die start %d" % g] + tail}
 
     def search(self, rng, n, tier):
         for i in range(n):
